@@ -60,7 +60,7 @@ def cases(ctx):
                             yield {"kind": route, "flavour": flav, "mnemonic": m, "pos": list(pos), "value": v,
                                    "values": codec.set_leaf(base, pos, v), "expect": which}
     for route in ("direct", "text", "setter", "instantiate"):
-        for which, apps, vers in (("out", [-1, -2, 65536, 65537, 70000, 2**31, 2**32, 2**32 + 1], [-1, 256, 257, 300, 65536]),
+        for which, apps, vers in (("out", [-1, -2, 65536, 65537, 70000, 70001, 2**31, 2**32, 2**32 + 1], [-1, 256, 257, 300, 65536]),
                                   ("in", [0, 1, 65535], [0, 1, 255])):
             for a in apps:
                 k += 1
@@ -166,11 +166,15 @@ def run_case(ctx, case):
         elif kind == "setter-header":
             def produce():
                 sub = codec.mk_subroutine("vanilla", case["version"], 0, ins)
+                if case["app_id"] % 2:
+                    bytes(sub)               # already serialised once (logging, size computation) with the old id
                 sub.app_id = case["app_id"]  # the app id is often only known after construction
                 return bytes(sub)
         elif kind == "instantiate-header":
             def produce():
-                sub = codec.mk_subroutine("vanilla", case["version"], None, ins)
+                sub = codec.mk_subroutine("vanilla", case["version"], None if case["app_id"] % 2 else 0, ins)
+                if sub.app_id is not None:
+                    bytes(sub)               # serialised before it is re-instantiated for another application
                 sub.instantiate(case["app_id"], {})  # what the SDK does before committing
                 return bytes(sub)
         else:
